@@ -4,7 +4,8 @@ Constants of the rounding / radix / roman-numeral builtins (C17), read with `ast
 function sources of the *current* /repo tree:  -> lean/HotXL/Generated/Round.lean
 
 Every integer literal is reported in source order per function, so a changed guard
-(e.g. `base > 36` -> `base > 35`, the 40-bit limits) changes the generated file and the
+(e.g. `base > 36` -> `base > 35`, the 40-bit limits, the 171 / 301 range ends of FACT / FACTDOUBLE, the 1074 / 1024
+place guards of ROUND*) changes the generated file and the
 `decide`d pin lemmas of HotXL/Lemmas/Round.lean stop checking.
 """
 import ast
@@ -116,7 +117,21 @@ def tables():
     lines.append('def arabicTokenRegex : String := %s' % lean_str(res[1] if len(res) == 2 else ''))
     lines.append('def arabicNumeralMap : List (String × Nat) := %s' % lean_list(
         ['(%s, %d)' % (lean_str(k), v) for k, v in amap]))
-    # ---- FACT / FACTDOUBLE / EVEN / ODD / MOD / QUOTIENT / CEILING / FLOOR / ROUNDUP / ROUNDDOWN small literals
-    for nm in ('ROUNDUP', 'ROUNDDOWN', 'CEILING', 'FLOOR', 'QUOTIENT', 'MOD', 'ODD', 'EVEN', 'FACT', 'FACTDOUBLE', 'INT', 'SIGN'):
+    # ---- FACT / FACTDOUBLE / EVEN / ODD / MOD / QUOTIENT / CEILING / FLOOR / ROUND / ROUNDUP / ROUNDDOWN small literals
+    for nm in ('ROUND', 'ROUNDUP', 'ROUNDDOWN', 'CEILING', 'FLOOR', 'QUOTIENT', 'MOD', 'ODD', 'EVEN', 'FACT', 'FACTDOUBLE', 'INT', 'SIGN'):
         lines.append(_int_list('ints' + nm.title(), _ints(_tree(getattr(mathtrig, nm)))))
+    # ---- the range guards (the model uses the NAMED constants; `source_constants` of Props/C17.lean pins their values)
+    # _place_beyond(number, digits): size = abs(number).bit_length() if int else FLOATSIZE; -digits > max(MINDIGITS, size)
+    xs = _ints(_tree(mathtrig._place_beyond)) if hasattr(mathtrig, '_place_beyond') else []
+    lines.append(_int_list('intsPlaceBeyond', xs))
+    _named(lines, xs, ['placeFloatSize', 'placeMinDigits'])
+    # ROUNDUP / ROUNDDOWN: sign = 1 if number > 0 else -1; digits > MAX -> number + 0; _place_beyond -> (#NUM! |) number * 0;
+    # digits < 0; 10**-digits (twice); 10**digits (twice)
+    _named(lines, _ints(_tree(mathtrig.ROUNDUP)),
+           [None, None, None, 'roundupDigitsMax', None, None, None, None, None, None, None])
+    _named(lines, _ints(_tree(mathtrig.ROUNDDOWN)),
+           [None, None, None, 'rounddownDigitsMax', None, None, None, None, None, None, None])
+    # FACT: number < 0 or number >= LIMIT;  FACTDOUBLE: number < 0 or number >= LIMIT; in (0, 1); return 1; range(n, 1, -2)
+    _named(lines, _ints(_tree(mathtrig.FACT)), [None, 'factLimit'])
+    _named(lines, _ints(_tree(mathtrig.FACTDOUBLE)), [None, 'factdoubleLimit', None, None, None, None, None])
     return lines
